@@ -119,6 +119,15 @@ type upSide struct {
 	closed  atomic.Bool
 	reason  atomic.Value
 	nextID  atomic.Int64
+	errs    []string // OnError callbacks (first few)
+}
+
+func (s *upSide) onError(err error) {
+	s.mu.Lock()
+	if len(s.errs) < 4 {
+		s.errs = append(s.errs, err.Error())
+	}
+	s.mu.Unlock()
 }
 
 func (s *upSide) onPacket(packets ...*parser.Packet) {
@@ -184,7 +193,7 @@ type upFault struct {
 }
 
 func (f upFault) String() string {
-	if f.Kind == "none" || f.Kind == "poststall" {
+	if f.Kind == "none" || f.Kind == "poststall" || f.Kind == "slowdiscard" {
 		return f.Kind
 	}
 	return f.Kind + "@" + f.Step
@@ -435,28 +444,47 @@ func (h *upPostHold) RoundTrip(req *http.Request) (*http.Response, error) {
 	return h.base.RoundTrip(req)
 }
 
+// upSlowDiscard is the client's real long-polling transport, except that Discard takes a while (as the
+// websocket transport's does).  Scenario "slowdiscard": several goroutines are inside / waiting for Send
+// while finishUpgradeTo swaps, discards the old transport and writes the UPGRADE packet; installed through
+// the verif export eio.VerifWrapClientTransport.
+type upSlowDiscard struct {
+	*polling.ClientTransport
+	d    time.Duration
+	used atomic.Bool
+}
+
+func (t *upSlowDiscard) Discard() {
+	t.used.Store(true)
+	t.ClientTransport.Discard()
+	time.Sleep(t.d)
+}
+
 // ---------------------------------------------------------------------------- live rig
 
 type upRow struct {
-	Kind      string `json:"kind"`  // live | fault
-	Fault     string `json:"fault"` // none | refuse@tcp | ...
-	Idx       int    `json:"idx"`
-	SSent     []int  `json:"ssent"`
-	CSent     []int  `json:"csent"`
-	CRecv     []int  `json:"crecv"`
-	SRecv     []int  `json:"srecv"`
-	SBurst    []int  `json:"sburst"` // ids sent by the burst goroutine of the server / the client
-	CBurst    []int  `json:"cburst"`
-	CBatches  []int  `json:"cbatches"`
-	SBatches  []int  `json:"sbatches"`
-	CTrBefore string `json:"ctr0"`
-	STrBefore string `json:"str0"`
-	CTrAfter  string `json:"ctr1"`
-	STrAfter  string `json:"str1"`
-	UpDone    bool   `json:"updone"`
-	CClosed   bool   `json:"cclosed"`
-	SClosed   bool   `json:"sclosed"`
-	CReason   string `json:"creason"`
+	Kind      string   `json:"kind"`  // live | fault
+	Fault     string   `json:"fault"` // none | refuse@tcp | ...
+	Idx       int      `json:"idx"`
+	SSent     []int    `json:"ssent"`
+	CSent     []int    `json:"csent"`
+	CRecv     []int    `json:"crecv"`
+	SRecv     []int    `json:"srecv"`
+	SBurst    []int    `json:"sburst"` // ids sent by the burst goroutine of the server / the client
+	CBurst    []int    `json:"cburst"`
+	CStreams  [][]int  `json:"cstreams"` // ids sent by each additional client sender goroutine
+	CBatches  []int    `json:"cbatches"`
+	SBatches  []int    `json:"sbatches"`
+	CTrBefore string   `json:"ctr0"`
+	STrBefore string   `json:"str0"`
+	CTrAfter  string   `json:"ctr1"`
+	STrAfter  string   `json:"str1"`
+	UpDone    bool     `json:"updone"`
+	CClosed   bool     `json:"cclosed"`
+	SClosed   bool     `json:"sclosed"`
+	CReason   string   `json:"creason"`
+	CErrs     []string `json:"cerrs"`
+	SErrs     []string `json:"serrs"`
 	// number of messages each side had sent when the swap was observed on that side (0 = never)
 	CSentAtSwap int `json:"csentatswap"`
 	SSentAtSwap int `json:"ssentatswap"`
@@ -484,7 +512,7 @@ func newUpRig(serverUpgradeTimeout time.Duration) (*upRig, error) {
 		rig.recs.Store(sock.ID(), rec)
 		return &eio.Callbacks{
 			OnPacket: rec.side.onPacket,
-			OnError:  func(err error) { rec.errors.Add(1) },
+			OnError:  func(err error) { rec.errors.Add(1); rec.side.onError(err) },
 			OnClose: func(reason eio.Reason, err error) {
 				rec.side.reason.Store(string(reason))
 				rec.side.closed.Store(true)
@@ -520,6 +548,7 @@ type upParams struct {
 	postSwap    int // messages of the continuous stream after the swap was seen
 	burst       int
 	late        int // messages per side after the timers expired (fault scenarios)
+	cSenders    int // additional client sender goroutines (live traffic)
 	dialDelayMs int
 }
 
@@ -534,6 +563,10 @@ func (rig *upRig) runConn(pr upParams) upRow {
 	delay := time.Duration(1+r.Intn(pr.dialDelayMs)) * time.Millisecond
 	pxFault := pr.fault
 	var postHold *upPostHold
+	if pr.fault.Kind == "slowdiscard" {
+		pxFault = upFault{"none", ""}
+		delay += 5 * time.Millisecond
+	}
 	if pr.fault.Kind == "poststall" {
 		pxFault = upFault{"none", ""}
 		postHold = &upPostHold{base: http.DefaultTransport.(*http.Transport).Clone(), hold: pr.clientTmo + 400*time.Millisecond}
@@ -557,6 +590,7 @@ func (rig *upRig) runConn(pr upParams) upRow {
 	}}
 	sock, err := eio.Dial("http://"+rig.addr+"/engine.io/", &eio.Callbacks{
 		OnPacket: cside.onPacket,
+		OnError:  cside.onError,
 		OnClose: func(reason eio.Reason, err error) {
 			cside.reason.Store(string(reason))
 			cside.closed.Store(true)
@@ -573,6 +607,20 @@ func (rig *upRig) runConn(pr upParams) upRow {
 		return row
 	}
 	defer sock.Close()
+	var slow *upSlowDiscard
+	if pr.fault.Kind == "slowdiscard" {
+		eio.VerifWrapClientTransport(sock, func(t eio.ClientTransport) eio.ClientTransport {
+			if pt, ok := t.(*polling.ClientTransport); ok {
+				slow = &upSlowDiscard{ClientTransport: pt, d: 50 * time.Millisecond}
+				return slow
+			}
+			return t
+		})
+		if slow == nil {
+			row.Env = "slowdiscard: transport already swapped"
+			return row
+		}
+	}
 	row.CTrBefore = sock.TransportName()
 	v, ok := rig.recs.Load(sock.ID())
 	if !ok {
@@ -606,10 +654,20 @@ func (rig *upRig) runConn(pr upParams) upRow {
 	var cAtSwap, sAtSwap atomic.Int64
 	var wg sync.WaitGroup
 	deadline := time.Now().Add(8 * time.Second)
-	faulty := pr.fault.Kind != "none"
+	faulty := pr.fault.Kind != "none" && pr.fault.Kind != "slowdiscard"
 	// continuous streams
-	stream := func(side *upSide, s eio.Socket, swap <-chan struct{}, rr *vk.Rand) {
+	var bmu sync.Mutex
+	row.CStreams = [][]int{}
+	stream := func(side *upSide, s eio.Socket, swap <-chan struct{}, rr *vk.Rand, ids *[]int) {
 		defer wg.Done()
+		var mine []int
+		defer func() {
+			if ids != nil {
+				bmu.Lock()
+				*ids = mine
+				bmu.Unlock()
+			}
+		}()
 		after := -1
 		for i := 0; i < pr.maxStream && time.Now().Before(deadline); i++ {
 			if after < 0 {
@@ -629,7 +687,7 @@ func (rig *upRig) runConn(pr upParams) upRow {
 			if rr.Intn(6) == 0 {
 				k = 2 + rr.Intn(3)
 			}
-			side.send(s, rr, k)
+			mine = append(mine, side.send(s, rr, k)...)
 			switch rr.Intn(4) {
 			case 0:
 			case 1:
@@ -639,7 +697,6 @@ func (rig *upRig) runConn(pr upParams) upRow {
 			}
 		}
 	}
-	var bmu sync.Mutex
 	burst := func(side *upSide, s eio.Socket, swap <-chan struct{}, at *atomic.Int64, rr *vk.Rand, ids *[]int) {
 		defer wg.Done()
 		select {
@@ -701,11 +758,21 @@ func (rig *upRig) runConn(pr upParams) upRow {
 		}
 	} else {
 		wg.Add(4)
-		go stream(sside, ssock, sSwap, r.Fork())
-		go stream(&cside, sock, upDone, r.Fork())
+		go stream(sside, ssock, sSwap, r.Fork(), nil)
+		go stream(&cside, sock, upDone, r.Fork(), nil)
+		// additional client sender goroutines (any number of Sends may be in flight at the swap)
+		extra := make([][]int, pr.cSenders)
+		for g := 0; g < pr.cSenders; g++ {
+			wg.Add(1)
+			go stream(&cside, sock, upDone, r.Fork(), &extra[g])
+		}
 		go burst(sside, ssock, sSwap, &sAtSwap, r.Fork(), &row.SBurst)
 		go burst(&cside, sock, upDone, &cAtSwap, r.Fork(), &row.CBurst)
 		wg.Wait()
+		row.CStreams = extra
+		if slow != nil {
+			row.Engaged = slow.used.Load()
+		}
 	}
 
 	// settle: wait until everything sent has arrived, or nothing moves any more
@@ -742,6 +809,8 @@ func (rig *upRig) runConn(pr upParams) upRow {
 	}
 	cside.mu.Lock()
 	sside.mu.Lock()
+	row.CErrs = append([]string{}, cside.errs...)
+	row.SErrs = append([]string{}, sside.errs...)
 	row.CSent = append([]int{}, cside.sent...)
 	row.SSent = append([]int{}, sside.sent...)
 	row.CRecv = append([]int{}, cside.recv...)
@@ -783,7 +852,7 @@ func upgradeMain(args []string) error {
 
 	// fault mode: the server's upgrade time-out is well above the held POST of "poststall" (1 s), so only the
 	// client's time-out (0.6 s) can expire while the swap waits for that POST
-	srvTmo := 1 * time.Second
+	srvTmo := 5 * time.Second // live: a swap that is slow on a busy machine must not run into the server's timer
 	if *mode == "fault" {
 		srvTmo = 3 * time.Second
 	}
@@ -797,7 +866,7 @@ func upgradeMain(args []string) error {
 	if *mode == "live" {
 		for i := 0; i < *n; i++ {
 			jobs = append(jobs, upParams{fault: upFault{"none", ""}, idx: i, seed: r.U64(), clientTmo: 5 * time.Second,
-				maxStream: 600, postSwap: 12 + r.Intn(12), burst: 4 + r.Intn(8), dialDelayMs: 2 + r.Intn(12)})
+				cSenders: r.Intn(4), maxStream: 600, postSwap: 12 + r.Intn(12), burst: 4 + r.Intn(8), dialDelayMs: 2 + r.Intn(12)})
 		}
 	} else {
 		for i := 0; i < *n; i++ {
@@ -805,6 +874,8 @@ func upgradeMain(args []string) error {
 				jobs = append(jobs, upParams{fault: f, idx: len(jobs), seed: r.U64(), clientTmo: 600 * time.Millisecond,
 					maxStream: 10 + r.Intn(10), late: 6 + r.Intn(6), dialDelayMs: 1 + r.Intn(8)})
 			}
+			jobs = append(jobs, upParams{fault: upFault{"slowdiscard", ""}, idx: len(jobs), seed: r.U64(), clientTmo: 5 * time.Second,
+				cSenders: 7, maxStream: 300, postSwap: 10, burst: 5, dialDelayMs: 4})
 		}
 	}
 	sem := make(chan struct{}, *par)
